@@ -6,9 +6,10 @@
     cubed/core/ops.py  partial_reduce.back_key_function (range(bi*k, min((bi+1)*k, nb)), product over axes) ↦ `groupKeys`, `partialReduceKeys`
     cubed/core/ops.py  partial_reduce chunks `ceil(len(c)/split_every)`                                      ↦ `ArraySem.nblocks`
     cubed/core/ops.py  _partial_reduce (loop with `result = None`) / tree_reduce (depth rounds)               ↦ `reduceRound`, `treeReduce`
+    cubed/core/ops.py  _arg_combine (argmax over the concatenated candidate values, take_along_axis)         ↦ `argmaxCombine`
     cubed/core/ops.py  scan.back_key_function (`bi // split_every`), _scan_binop (`inc[bi % split_every]`),
-                       the assertion `increment.shape[axis] == scanned.numblocks[axis]`                       ↦ `scanKeys`, `scanAccepts`, `scanIncPos`
-    cubed/core/ops.py  map_selection.back_key_function / _assemble_index_chunk via zarr OrthogonalIndexer     ↦ `Sel`, `selElems`, `selBlocks`, `mapSelectionKeys`, `assembleIndexChunk`
+                       the assertion `increment.shape[axis] == scanned.numblocks[axis]`                       ↦ `scanKeys`, `scanAccepts`, `scanIncPos`, `scanOut1`
+    cubed/core/ops.py  map_selection.back_key_function / _assemble_index_chunk via zarr OrthogonalIndexer     ↦ `Sel`, `selElems`, `selBlocks`, `mapSelectionKeys`, `assembleIndexChunk1`, `selPick`, `assembleIndexChunkN`
     cubed/core/ops.py  _rechunk / merge_chunks selection_function = get_item(target_chunks, out_coords)       ↦ `rechunkSel`
     cubed/core/indexing.py _target_chunk_selection (offset + step * cumsum(target_chunks))                    ↦ `targetChunkSel`
     cubed/array_api/manipulation_functions.py
@@ -82,6 +83,10 @@ def reduceRound {β : Type} (op : β → β → β) (k nb : Nat) (blk : Nat → 
 def treeReduce {β : Type} (op : β → β → β) (k : Nat) : Nat → Nat → (Nat → Option β) → Nat × (Nat → Option β)
   | 0, nb, blk => (nb, blk)
   | d + 1, nb, blk => treeReduce op k d (nblocks nb k) (reduceRound op k nb blk)
+
+/-- `_arg_combine` (argmax) on two candidates `(i, v)` = (absolute index, value): `nxp.argmax` over the
+concatenated values returns the *first* maximum, so the left candidate wins ties. -/
+def argmaxCombine (a b : Nat × Nat) : Nat × Nat := if a.2 < b.2 then b else a
 
 /-! ### scan (cumulative_sum / cumulative_prod) -/
 
